@@ -129,6 +129,24 @@ theorem eval_congr (A : List Env) (t : IR) :
         · rename_i hne1 hne2
           exact h y (Or.inr ⟨⟨hy, fun e => hne1 e.symm⟩, fun e => hne2 e.symm⟩)
     simp only [hb]
+  case streamScan acc v a z b iha ihz ihb =>
+    intro ρ ρ' ha h
+    simp only [aggFree, Bool.and_eq_true] at ha
+    simp only [fv, List.mem_append, mem_remove] at h
+    simp only [eval]
+    rw [iha ρ ρ' ha.1.1 (fun y hy => h y (Or.inl (Or.inl hy))), ihz ρ ρ' ha.1.2 (fun y hy => h y (Or.inl (Or.inr hy)))]
+    have hb : ∀ s w, eval ((v, w) :: (acc, s) :: ρ) A b = eval ((v, w) :: (acc, s) :: ρ') A b := by
+      intro s w
+      apply ihb _ _ ha.2
+      intro y hy
+      simp only [lookup_cons]
+      split
+      · rfl
+      · split
+        · rfl
+        · rename_i hne1 hne2
+          exact h y (Or.inr ⟨⟨hy, fun e => hne1 e.symm⟩, fun e => hne2 e.symm⟩)
+    simp only [hb]
   case streamAgg | aggLet | aggFilter | agg => intro _ _ ha; simp [aggFree] at ha
 
 /-! ## substitution -/
@@ -166,6 +184,17 @@ theorem subst_of_not_free (x : Name) (v : IR) (t : IR) : x ∉ fv t → subst x 
     · have : x ∉ fv b := fun hm => hyx (h.2 hm).symm
       simp [hyx, ihb this]
   case streamFold acc w a z b iha ihz ihb =>
+    intro h; simp only [fv, List.mem_append, mem_remove, not_or, not_and, Decidable.not_not] at h
+    simp only [subst, iha h.1.1, ihz h.1.2]
+    by_cases hyx : acc = x ∨ w = x
+    · simp [hyx]
+    · have : x ∉ fv b := by
+        intro hm
+        rcases Decidable.not_or_of_imp (fun e : x = w => e) with h1 | h1
+        · have := h.2 ⟨hm, h1⟩; exact hyx (Or.inl this.symm)
+        · exact hyx (Or.inr h1.symm)
+      simp [hyx, ihb this]
+  case streamScan acc w a z b iha ihz ihb =>
     intro h; simp only [fv, List.mem_append, mem_remove, not_or, not_and, Decidable.not_not] at h
     simp only [subst, iha h.1.1, ihz h.1.2]
     by_cases hyx : acc = x ∨ w = x
@@ -349,6 +378,36 @@ theorem eval_subst (A : List Env) (x : Name) (v : IR) (hav : aggFree v = true) (
             · subst hy; exact h.1.1, fun ρ1 => ihb ρ1 ha.2 h.2⟩))
           simpa [hk, hyx] using this
     simp only [hb]
+  case streamScan acc w a z b iha ihz ihb =>
+    intro ρ ha hs
+    simp only [aggFree, Bool.and_eq_true] at ha
+    simp only [substOk, Bool.and_eq_true, Bool.or_eq_true, decide_eq_true_eq] at hs
+    simp only [subst, eval]
+    rw [iha ρ ha.1.1 hs.1.1.1, ihz ρ ha.1.2 hs.1.1.2]
+    have hb : ∀ s u, eval ((w, u) :: (acc, s) :: (x, eval ρ A v) :: ρ) A b
+        = eval ((w, u) :: (acc, s) :: ρ) A (if acc = x ∨ w = x then b else subst x v b) := by
+      intro s u
+      have key := eval_under_binders A x v b [(w, u), (acc, s)] ρ hav ha.2
+      simp only [keys, List.map_cons, List.map_nil, List.mem_cons, List.not_mem_nil, or_false, List.cons_append,
+        List.nil_append] at key
+      by_cases hyx : acc = x ∨ w = x
+      · have hk : x = w ∨ x = acc := by rcases hyx with h | h; exact Or.inr h.symm; exact Or.inl h.symm
+        have := key (Or.inl hk)
+        simpa [hk, hyx] using this
+      · have hk : ¬ (x = w ∨ x = acc) := by
+          intro h; rcases h with h | h
+          · exact hyx (Or.inr h.symm)
+          · exact hyx (Or.inl h.symm)
+        rcases hs.2 with (h | h) | h
+        · exact absurd h hyx
+        · have := key (Or.inr (Or.inl h))
+          simpa [hk, hyx] using this
+        · have := key (Or.inr (Or.inr ⟨by
+            intro y hy; rcases hy with hy | hy
+            · subst hy; exact h.1.2
+            · subst hy; exact h.1.1, fun ρ1 => ihb ρ1 ha.2 h.2⟩))
+          simpa [hk, hyx] using this
+    simp only [hb]
 
 /-! ## inlining the `__cse` bindings -/
 
@@ -369,6 +428,8 @@ theorem eval_cseLetFree_inline (t : IR) : cseLetFree t = true → inlineCse t = 
   case ite iha ihb ihc =>
     intro h; simp only [cseLetFree, Bool.and_eq_true] at h; simp [inlineCse, iha h.1.1, ihb h.1.2, ihc h.2]
   case streamFold iha ihb ihc =>
+    intro h; simp only [cseLetFree, Bool.and_eq_true] at h; simp [inlineCse, iha h.1.1, ihb h.1.2, ihc h.2]
+  case streamScan iha ihb ihc =>
     intro h; simp only [cseLetFree, Bool.and_eq_true] at h; simp [inlineCse, iha h.1.1, ihb h.1.2, ihc h.2]
 
 /-- inlining the lifted bindings does not change the value, in any environment -/
@@ -399,6 +460,8 @@ theorem eval_inlineCse (t : IR) : inlineOk t = true → ∀ ρ A, eval ρ A (inl
   case ite iha ihb ihc =>
     intro h ρ A; simp only [inlineOk, Bool.and_eq_true] at h; simp [inlineCse, eval, iha h.1.1, ihb h.1.2, ihc h.2]
   case streamFold iha ihb ihc =>
+    intro h ρ A; simp only [inlineOk, Bool.and_eq_true] at h; simp [inlineCse, eval, iha h.1.1, ihb h.1.2, ihc h.2]
+  case streamScan iha ihb ihc =>
     intro h ρ A; simp only [inlineOk, Bool.and_eq_true] at h; simp [inlineCse, eval, iha h.1.1, ihb h.1.2, ihc h.2]
 
 /-! ## the scope checker decides `WellScoped` -/
@@ -454,6 +517,9 @@ theorem scopeOk_sound (t : IR) : ∀ Γ Δ, scopeOk Γ Δ t = true → WellScope
   case streamFold iha ihz ihb =>
     intro Γ Δ h; simp only [scopeOk, Bool.and_eq_true] at h
     exact .streamFold (iha Γ Δ h.1.1) (ihz Γ Δ h.1.2) (ihb _ Δ h.2)
+  case streamScan iha ihz ihb =>
+    intro Γ Δ h; simp only [scopeOk, Bool.and_eq_true] at h
+    exact .streamScan (iha Γ Δ h.1.1) (ihz Γ Δ h.1.2) (ihb _ Δ h.2)
   case streamAgg iha ihq =>
     intro Γ Δ h; simp only [scopeOk, Bool.and_eq_true] at h; exact .streamAgg (iha Γ Δ h.1) (ihq Γ _ h.2)
   case aggLet ihv ihb =>
@@ -511,6 +577,16 @@ theorem fv_subset_of_wellScoped {Γ Δ t} (h : WellScoped Γ Δ t) : aggFree t =
       · exact absurd h hy.1.2
       · exact absurd h hy.2
       · exact h
+  case streamScan iha ihz ihb =>
+    rcases hy with (hy | hy) | hy
+    · exact iha ha.1.1 y hy
+    · exact ihz ha.1.2 y hy
+    · have := ihb ha.2 y hy.1.1
+      simp only [List.mem_cons] at this
+      rcases this with h | h | h
+      · exact absurd h hy.1.2
+      · exact absurd h hy.2
+      · exact h
 
 end HailVerif.ExprIR
 
@@ -544,6 +620,11 @@ theorem fv_subset_names (t : IR) : ∀ y ∈ fv t, y ∈ names t := by
     · exact Or.inr (Or.inr (Or.inl (Or.inl (iha y hy))))
     · exact Or.inr (Or.inr (Or.inl (Or.inr (ihz y hy))))
     · exact Or.inr (Or.inr (Or.inr (ihb y hy.1.1)))
+  case streamScan iha ihz ihb =>
+    rcases hy with (hy | hy) | hy
+    · exact Or.inr (Or.inr (Or.inl (Or.inl (iha y hy))))
+    · exact Or.inr (Or.inr (Or.inl (Or.inr (ihz y hy))))
+    · exact Or.inr (Or.inr (Or.inr (ihb y hy.1.1)))
   case streamAgg iha ihq =>
     rcases hy with hy | hy
     · exact Or.inr (Or.inl (iha y hy))
@@ -573,6 +654,13 @@ theorem aggFree_abstractAt (x : Name) (v : IR) (F : List Name) (t : IR) :
       · exact h.2
       · exact ihb h.2
   case streamFold iha ihz ihb =>
+    intro h; simp only [aggFree, Bool.and_eq_true] at h
+    simp only [abstractAt]; split
+    · simp [aggFree]
+    · simp only [aggFree, iha h.1.1, ihz h.1.2, Bool.true_and]; split
+      · exact h.2
+      · exact ihb h.2
+  case streamScan iha ihz ihb =>
     intro h; simp only [aggFree, Bool.and_eq_true] at h
     simp only [abstractAt]; split
     · simp [aggFree]
@@ -631,6 +719,19 @@ theorem subst_abstractAt (x : Name) (v : IR) (F : List Name) (t : IR) :
       split
       · rw [subst_of_not_free x v b (fun hm => hxb (fv_subset_names b x hm))]
       · rw [ihb hxb]
+  case streamScan acc w a z b iha ihz ihb =>
+    intro h; simp only [names, List.mem_cons, List.mem_append, not_or] at h
+    obtain ⟨hxacc, hxw, ⟨hxa, hxz⟩, hxb⟩ := h
+    have h1 : ¬ (acc = x ∨ w = x) := by
+      intro e; rcases e with e | e
+      · exact hxacc e.symm
+      · exact hxw e.symm
+    simp only [abstractAt]; split
+    · rename_i e; simp [subst, e]
+    · simp only [subst, iha hxa, ihz hxz, h1, if_false]
+      split
+      · rw [subst_of_not_free x v b (fun hm => hxb (fv_subset_names b x hm))]
+      · rw [ihb hxb]
 
 theorem substOk_abstractAt (x : Name) (v : IR) (F : List Name) (t : IR) :
     aggFree t = true → x ∉ names t → substOk x F (abstractAt x v F t) = true := by
@@ -663,6 +764,20 @@ theorem substOk_abstractAt (x : Name) (v : IR) (F : List Name) (t : IR) :
       · rename_i hyF
         exact ⟨aggFree_abstractAt x v F b ha.2, Or.inr ⟨hyF, ihb ha.2 hxb⟩⟩
   case streamFold acc w a z b iha ihz ihb =>
+    intro ha hx
+    simp only [aggFree, Bool.and_eq_true] at ha
+    simp only [names, List.mem_cons, List.mem_append, not_or] at hx
+    obtain ⟨hxacc, hxw, ⟨hxa, hxz⟩, hxb⟩ := hx
+    simp only [abstractAt]; split
+    · simp [substOk]
+    · simp only [substOk, iha ha.1.1 hxa, ihz ha.1.2 hxz, Bool.true_and, Bool.and_eq_true, Bool.or_eq_true,
+        decide_eq_true_eq]
+      split
+      · exact ⟨ha.2, Or.inl (Or.inr (fun hm => hxb (fv_subset_names b x hm)))⟩
+      · rename_i hF
+        simp only [not_or] at hF
+        exact ⟨aggFree_abstractAt x v F b ha.2, Or.inr ⟨⟨hF.1, hF.2⟩, ihb ha.2 hxb⟩⟩
+  case streamScan acc w a z b iha ihz ihb =>
     intro ha hx
     simp only [aggFree, Bool.and_eq_true] at ha
     simp only [names, List.mem_cons, List.mem_append, not_or] at hx
